@@ -40,7 +40,8 @@ def main():
             a = a[2:]
         else:
             a = a[1:]
-    wt = f"/tmp/seed_{prop}"
+    wave = os.environ.get("SEED_WAVE", "")
+    wt = f"/tmp/seed{wave}_{prop}"
     out = f"{wt}/OUT"
     diff, demo, md = f"{out}/m{i}.diff", f"{out}/m{i}_demo.py", f"{out}/m{i}.md"
     for f in (diff, demo):
@@ -66,19 +67,17 @@ def main():
     confirmed = rc == 0 and rc_d == 1 and rc_t == 0 and m and int(m.group(1)) == 149
     meta["confirmed"] = bool(confirmed)
     print(f"[{prop} m{i}] demo clean={rc} mutant={rc_d}; suite: {meta['suite_with_change']}; confirmed={confirmed}")
-    # against /repo
-    st = subprocess.run("git status --porcelain -- tinyflux", shell=True, cwd="/repo", stdout=subprocess.PIPE, text=True).stdout.strip()
-    if st:
-        print("refusing: /repo has local modifications:", st)
-        return 2
-    rc_r, o_r = sh(f"git apply {diff}", cwd="/repo")
+    # against the scratch worktree (same HEAD as /repo) with the change applied; /repo is never touched
+    rc_r, o_r = sh(f"git apply {diff}", cwd=wt)
     if rc_r != 0:
-        print("patch does not apply to /repo:", o_r)
+        print("patch does not apply:", o_r)
         return 2
+    evd = f"/dev/shm/vf_seed_evidence_{os.getpid()}"
+    cenv = dict(os.environ, VF_REPO=wt, VF_EVIDENCE_DIR=evd)
     try:
         for p in [prop] + [x for x in also if x != prop]:
             t0 = time.time()
-            rc_c, o_c = sh(f"bin/check {p} {tier}", cwd=V)
+            rc_c, o_c = sh(f"bin/check {p} {tier}", cwd=V, env=cenv)
             summ = [l for l in o_c.splitlines() if l.startswith("SUMMARY")]
             vio = [l for l in o_c.splitlines() if l.startswith("VIOLATION")]
             first = ""
@@ -91,10 +90,11 @@ def main():
             if first:
                 print("   " + first.replace("\n", "\n   ")[:600])
     finally:
-        sh("git checkout -- .", cwd="/repo")
+        sh("git checkout -- tinyflux", cwd=wt)
+        shutil.rmtree(evd, ignore_errors=True)
     meta["detected_by_owner"] = any(r["exit"] == 1 for r in meta["ran"][:1])
     meta["detected_by"] = [r["check"] for r in meta["ran"] if r["exit"] == 1]
-    d = os.path.join(V, "seeded", f"{prop}-m{i}")
+    d = os.path.join(V, "seeded", f"{prop}-{'w' + wave if wave else ''}m{i}")
     os.makedirs(d, exist_ok=True)
     shutil.copy(diff, os.path.join(d, "patch.diff"))
     shutil.copy(demo, os.path.join(d, "demo.py"))
